@@ -524,6 +524,7 @@ func genPipe(r *Rng, tier string, profile string) *pipeCase {
 	}
 	t0 := int64(1700000000)*1e9 + int64(r.Intn(1000000))
 	parts := partition(r, total, c.npre, c.nsamp)
+	jitter := profile == "C01" && r.Chance(35)
 	pos := 0
 	curNpre, curNsamp := c.npre, c.nsamp
 	for _, l := range parts {
@@ -557,7 +558,13 @@ func genPipe(r *Rng, tier string, profile string) *pipeCase {
 		for ch := range data {
 			data[ch] = c.streams[ch][pos : pos+l]
 		}
-		c.ops = append(c.ops, pipeOp{kind: "B", first: first + int64(pos), t0: t0 + int64(pos)*c.periodNs, data: data})
+		// the time stamp a block carries is the read-out's own clock reading: in a share of the cases it is not
+		// exactly on the frame grid of the first block (jitter, drift) - records must be stamped from THEIR block
+		bt := t0 + int64(pos)*c.periodNs
+		if jitter {
+			bt += int64(r.Range(-3000, 3000))
+		}
+		c.ops = append(c.ops, pipeOp{kind: "B", first: first + int64(pos), t0: bt, data: data})
 		pos += l
 	}
 	for _, op := range c.ops {
